@@ -46,9 +46,12 @@ def plan(tier, seed):
                           steps=3000 if tier == 'thorough' else 600,
                           manager='autoref' if k % 2 == 0 else 'bdd',
                           starts=4 if k % 4 < 3 else None, hashseed=k))
+    # instances beyond truth tables (12-70 variables), see vf/big.py
+    from vf import big
+    specs.extend(big.specs(tier, seed, 'C09'))
     meta = dict(
         rule=RULE,
-        require=['fault_points_fired', 'control_points', 'requests_seen',
+        require=['big_histories', 'fault_points_fired', 'control_points', 'requests_seen',
                  'natural_reorderings', 'ops_covered',
                  'refused_calls_with_reordering_on'],
         assumptions=['the reordering signal originates only in '
@@ -632,5 +635,8 @@ def natural(ctx, spec):
 
 
 def run_shard(ctx, spec):
+    if spec['kind'] == 'big':
+        from vf import big
+        return ctx.guard('big', big.run, ctx, spec, case=spec)
     fn = dict(faults=faults, natural=natural)[spec['kind']]
     ctx.guard(spec['kind'], fn, ctx, spec, case=spec)
